@@ -12,7 +12,9 @@ from props import c01
 ID = "C16"
 RULE = ("Directly connected pipelines over the synchronous catalogue (no buffering node), "
         "inputs with metadata counters, and a fault plan = set of (node, invocation index) whose "
-        "user function / key function / consumer raises Boom; failing nodes sit on the "
+        "user function / key function / consumer raises Boom (in plain synchronous operation also "
+        "dressed as StopIteration, KeyError, AttributeError or TypeError; part 'below-flatten' "
+        "puts the failing nodes below a flatten); failing nodes sit on the "
         "last-attached branch of every fan-out above them, so the outcome does not depend on "
         "whether remaining siblings are visited (unspecified). Modes: synchronous, asynchronous "
         "on the virtual loop (sync, future-returning and coroutine consumers; a coroutine "
